@@ -360,7 +360,7 @@ func c19() *core.Check {
 	schemes := []string{"javascript:", "vbscript:", "data:", "view-source:"}
 	return &core.Check{
 		ID: "C19",
-		Rule: "(recall) for every scheme in {javascript:, vbscript:, data:, view-source:}: per-byte encodings in {literal, &#D;, &#D, &#0000D;, &#xH;, &#XH, &#x00H;} exhaustively for data: and the java prefix (8^5, 8^4) and sampled for the longer schemes, x leading junk (bytes <= 0x20, >= 0x7f, entity-encoded white space) x NUL/LF between scheme letters x case masks; oracle: the URL predicate is true, and IsXSS(<a ATTR=quote(value)>) is true for every live URL attribute x 4 quotings. " +
+		Rule: "(recall) for every scheme in {javascript:, vbscript:, data:, view-source:}: per-byte encodings in {literal, &#D;, &#D, &#0000D;, &#xH;, &#XH, &#x00H;} exhaustively for data: and the java prefix (8^5, 8^4) and sampled for the longer schemes, x leading junk (bytes <= 0x20, >= 0x7f, entity-encoded white space) x NUL/LF between scheme letters x case masks; oracle: the URL predicate is true, and IsXSS(<a ATTR=quote(value)>) is true for every live URL attribute (also upper-/mixed-case and with NUL runs of 1-97 bytes inside the name) x 4 quotings. " +
 			"(decoder) every string over {& # x X ; 0 1 9 a f F g NUL 0xff} up to length 6 (thorough 7) plus boundary values around 0x1000FF in decimal and hex with 0-8 leading zeros and every tail: (value, consumed) must equal the decoder specification, 1 <= consumed <= |s|. Non-trivial = decoder inputs starting with '&#' and all recall cases; distinct by input.",
 		Plan: func(tier string, seed uint64) []core.Unit {
 			L := 6
@@ -490,6 +490,17 @@ func c19() *core.Check {
 				}
 			} else if strings.Contains(val, q) {
 				q = "\""
+			}
+			// attribute name obfuscation: case and NUL runs inside the name
+			switch int(c.A) % 5 {
+			case 1:
+				a = strings.ToUpper(a)
+			case 2:
+				a = a[:1] + "\x00" + a[1:]
+			case 3:
+				a = a[:len(a)-1] + strings.Repeat("\x00", 1+int(c.A)%97) + a[len(a)-1:]
+			case 4:
+				a = applyMask(a, uint64(c.A)*0x9e3779b97f4a7c15)
 			}
 			doc := "<a " + a + "=" + q + val + q + ">"
 			if !li.IsXSS(doc) {
